@@ -321,8 +321,13 @@ def step (H : Hashes) (dirLen : Nat) (s : State) : Op → State × Resp
     match bucketDir b with
     | none => (s, .err .InvalidBucketName)
     | some bd =>
-      if alHas bd s.buckets then ({ s with buckets := alErase bd s.buckets }, .ok)
-      else (s, .err .NoSuchBucket)
+      match s.tree bd with
+      | none => (s, .err .NoSuchBucket)
+      | some t =>
+        -- dbc4627: the walk over the bucket directory: an entry that is not a directory is an object → `BucketNotEmpty`;
+        -- directories (left behind by deleted objects, or "directory objects") do not count; then `remove_dir_all`
+        if t.files ≠ [] then (s, .err .BucketNotEmpty)
+        else ({ s with buckets := alErase bd s.buckets }, .ok)
   | .headBucket b =>
     match bucketDir b with
     | none => (s, .err .InvalidBucketName)
